@@ -46,7 +46,7 @@ Section Mono.
   Qed.
   Lemma wf_mono g : wf_g p g = true -> wf_g q g = true.
   Proof.
-    unfold wf_g. intro H. apply andb_prop in H as [A B]. rewrite A. cbn [andb].
+    unfold wf_g, wf_rest. intro H. apply andb_prop in H as [A B]. rewrite A. cbn [andb].
     destruct (unit_scale_of (h_unit (g_hdr g))); [|discriminate].
     destruct (str_eqb _ _); [|reflexivity].
     destruct (conv_len colname_lengths _); [|discriminate]. destruct (conv_len layername_lengths _); [|discriminate].
